@@ -91,3 +91,59 @@ func ctPushRequestMerge(pr, other *PushRequest) {
 		return m.Reason[k] == verif.Old(func() int { return pr.Reason[k] })+verif.Old(func() int { return other.Reason[k] })
 	}))
 }
+
+// requestUntouched: the push request r holds exactly what it held before the call under contract
+// (its fields, and the contents of the sets and the reason map it refers to).
+func requestUntouched(r *PushRequest) bool {
+	return verif.Same(r.ConfigsUpdated, verif.Old(func() sets.Set[ConfigKey] { return r.ConfigsUpdated })) &&
+		verif.Same(r.AddressesUpdated, verif.Old(func() sets.Set[string] { return r.AddressesUpdated })) &&
+		verif.Same(r.WaypointsUpdated, verif.Old(func() sets.Set[WaypointReference] { return r.WaypointsUpdated })) &&
+		verif.Same(r.Reason, verif.Old(func() ReasonStats { return r.Reason })) &&
+		r.Push == verif.Old(func() *PushContext { return r.Push }) &&
+		r.Start == verif.Old(func() time.Time { return r.Start }) &&
+		r.Forced == verif.Old(func() bool { return r.Forced }) &&
+		verif.Forall(func(k ConfigKey) bool {
+			return hasKey(r.ConfigsUpdated, k) == verif.Old(func() bool { return hasKey(r.ConfigsUpdated, k) })
+		}) &&
+		verif.Forall(func(k string) bool {
+			return hasKey(r.AddressesUpdated, k) == verif.Old(func() bool { return hasKey(r.AddressesUpdated, k) })
+		}) &&
+		verif.Forall(func(k WaypointReference) bool {
+			return hasKey(r.WaypointsUpdated, k) == verif.Old(func() bool { return hasKey(r.WaypointsUpdated, k) })
+		}) &&
+		verif.Forall(func(k TriggerReason) bool {
+			return hasKey(r.Reason, k) == verif.Old(func() bool { return hasKey(r.Reason, k) }) && r.Reason[k] == verif.Old(func() int { return r.Reason[k] })
+		})
+}
+
+//verif:contract (*PushRequest).CopyMerge
+//verif:prop C02
+func ctPushRequestCopyMerge(pr, other *PushRequest) {
+	m := pr.CopyMerge(other)
+	both := pr != nil && other != nil
+	verif.Ensures("nil-receiver-returns-other", pr != nil || m == other)
+	verif.Ensures("nil-other-returns-receiver", !(pr != nil && other == nil) || m == pr)
+	verif.Ensures("fresh-result", !both || verif.Fresh(m))
+	// from the statement: "the merged request always covers the union of changed keys"
+	verif.Ensures("configs-union", !both || verif.Forall(func(k ConfigKey) bool {
+		return hasKey(m.ConfigsUpdated, k) == (verif.Old(func() bool { return hasKey(pr.ConfigsUpdated, k) }) || verif.Old(func() bool { return hasKey(other.ConfigsUpdated, k) }))
+	}))
+	verif.Ensures("addresses-union", !both || verif.Forall(func(k string) bool {
+		return hasKey(m.AddressesUpdated, k) == (verif.Old(func() bool { return hasKey(pr.AddressesUpdated, k) }) || verif.Old(func() bool { return hasKey(other.AddressesUpdated, k) }))
+	}))
+	verif.Ensures("waypoints-union", !both || verif.Forall(func(k WaypointReference) bool {
+		return hasKey(m.WaypointsUpdated, k) == (verif.Old(func() bool { return hasKey(pr.WaypointsUpdated, k) }) || verif.Old(func() bool { return hasKey(other.WaypointsUpdated, k) }))
+	}))
+	// "stays forced if any input was forced"
+	verif.Ensures("forced-or", !both || m.Forced == (verif.Old(func() bool { return pr.Forced }) || verif.Old(func() bool { return other.Forced })))
+	// "uses the newest snapshot" (the later request's snapshot whenever it carries one)
+	verif.Ensures("newest-snapshot", !both || verif.Old(func() *PushContext { return other.Push }) == nil || m.Push == verif.Old(func() *PushContext { return other.Push }))
+	// from the code: the snapshot of the later request is taken even when it is nil
+	verif.Ensures("snapshot-of-other", !both || m.Push == verif.Old(func() *PushContext { return other.Push }))
+	verif.Ensures("oldest-start", !both || m.Start == verif.Old(func() time.Time { return pr.Start }))
+	verif.Ensures("reason-counts-add", !both || verif.Forall(func(k TriggerReason) bool {
+		return m.Reason[k] == verif.Old(func() int { return pr.Reason[k] })+verif.Old(func() int { return other.Reason[k] })
+	}))
+	// "merging for one proxy never alters what another proxy is told": nothing that existed is written
+	verif.Ensures("no-existing-request-written", verif.Forall(func(r *PushRequest) bool { return verif.Fresh(r) || r == nil || requestUntouched(r) }))
+}
